@@ -40,8 +40,14 @@ def g_points(draw):
         # some rows close to a centroid
         m = min(n, 3)
         X[:m] = cent[r.integers(0, k, m)] + spread * r.normal(0, 1e-3, (m, F))
+    how = gen.presentation(draw)
+    if how == "int":
+        if spread < 1:
+            how = "plain"
+        else:
+            X = gen.integral(X)
     return {"X": X, "cent": cent, "chunks": gen.composition(draw, n), "off_mag": float(abs(off_mag)),
-            "spread": spread}
+            "spread": spread, "how": how}
 
 
 def machine(cent):
@@ -59,13 +65,15 @@ def c_points(ctx, case):
     k, n = cent.shape[0], X.shape[0]
     m = machine(cent)
     want = ref.sq_dists(X, cent)
-    got = np.asarray(m.transform(X))
+    Xarg = sut.present(X, case.get("how", "plain"))
+    ctx.event("input:" + case.get("how", "plain"))
+    got = np.asarray(m.transform(Xarg))
     ctx.note(k >= 2 and (case["off_mag"] >= 1e4 or (len(chunks) >= 2 and len(set(chunks)) >= 2)),
              "offset:%g" % case["off_mag"], "chunks>=2" if len(chunks) >= 2 else "chunks=1")
     ctx.check(got.shape == (k, n), "transform shape %s, expected %s" % (got.shape, (k, n)), "shape")
     ctx.close(got, want, "squared distances", rtol=1e-12, atol=0)
     ctx.check((got >= 0).all(), "negative squared distance", "negative")
-    lab = np.asarray(m.predict(X))
+    lab = np.asarray(m.predict(Xarg))
     ctx.check(lab.shape == (n,), "predict shape %s" % (lab.shape,), "shape")
     ctx.check(((lab >= 0) & (lab < k)).all(), "label out of range", "label-range")
     dmin = want.min(axis=0)
@@ -123,7 +131,7 @@ def c_stats(ctx, case):
     ctx.note(int(nonempty.sum()) >= 2 and (case["off_mag"] >= 1e4 or len(set(chunks)) >= 2),
              "offset:%g" % case["off_mag"], "empty-cluster" if (~nonempty).any() else None)
     bound = 16 * n * EPS * float((X * X).max()) + 1e-300
-    for name, data in (("numpy", X), ("dask", sut.dask_rows(X, chunks))):
+    for name, data in (("numpy", sut.present(X, case.get("how", "plain"))), ("dask", sut.dask_rows(X, chunks))):
         gv, gw = m.get_variances_and_weights_for_each_cluster(data)
         gv, gw = np.asarray(gv, float), np.asarray(gw, float)
         ctx.check(gv.shape == v.shape and gw.shape == w.shape, "%s shapes %s %s" % (name, gv.shape, gw.shape), "shape")
